@@ -152,7 +152,7 @@ def itemOk (cur : String) (c : ℕ) (it : Item) : Prop := (it.cur = "" ∨ it.cu
 /-- the encoding of an exchange rate: `toSub` is the number of decimals of the destination currency -/
 def ratesOk (cur : String) (c : ℕ) (rates : List XRate) : Prop := ∀ r ∈ rates, r.to = cur → c ≤ r.toSub
 
-theorem convert_exp (r : XRate) (a : Amount) : (convert exactOps r a).exp = r.toSub := by
+theorem convert_exp_rd (r : XRate) (a : Amount) : (convert exactOps r a).exp = r.toSub := by
   unfold convert
   simp only
   split
@@ -183,7 +183,7 @@ theorem itemPrice_exp (cur : String) (c : ℕ) (rates : List XRate) (it it' : It
         injection h with h
         subst h
         refine ⟨_, rfl, ?_⟩
-        rw [convert_exp]
+        rw [convert_exp_rd]
         unfold findRate at hf
         have hm := List.mem_of_find?_eq_some hf
         have hp := List.find?_some hf
@@ -1052,7 +1052,7 @@ theorem readdOk_finish (d : Doc) (p : Pre) (tx : TaxTotal)
     Bool.and_eq_true, List.all_eq_true]
   exact ⟨⟨⟨⟨c_due, hAout⟩, hUout⟩, fun x hx => atMost_of_eq d.c _ (hD x hx)⟩, fun x hx => atMost_of_eq d.c _ (hC x hx)⟩
 
-theorem rawTotals_twt_exp (d : Doc) (p : Pre) (tx : TaxTotal) :
+theorem rawTotals_twt_exp_rd (d : Doc) (p : Pre) (tx : TaxTotal) :
     (rawTotals exactOps d p tx).totalWithTax.exp = p.total2.exp := by
   simp only [rawTotals, add_exp]
   split <;> simp
@@ -1062,7 +1062,7 @@ theorem rawTotals_advances_exp (d : Doc) (p : Pre) (tx : TaxTotal) (h2 : p.total
     (hadv : ∀ a ∈ d.advances, a.percent = none → a.amount.exp ≤ d.c) :
     ∀ x, (rawTotals exactOps d p tx).advances = some x → x.exp = d.c := by
   intro x hx
-  have e_twt : (rawTotals exactOps d p tx).totalWithTax.exp = d.c := by rw [rawTotals_twt_exp, h2]
+  have e_twt : (rawTotals exactOps d p tx).totalWithTax.exp = d.c := by rw [rawTotals_twt_exp_rd, h2]
   have f_adv : (rawTotals exactOps d p tx).advances = if d.hasPayment then
       advanceTotal exactOps d.c (d.advances.map (calcAdvance exactOps d.c (rawTotals exactOps d p tx).totalWithTax))
       else none := rfl
